@@ -63,6 +63,20 @@ def main():
                 for m2 in rx.finditer(ls):
                     if 'address_of(' + m2.group(0) in ls:
                         found.setdefault((fn, m2.group(0)), set()).add('address-passed')
+        # calls into libc functions that keep hidden static state (ISO C / POSIX: not required to be thread-safe)
+        NONREENTRANT = ('gmtime', 'localtime', 'ctime', 'asctime', 'strtok', 'rand', 'srand', 'strerror', 'setlocale', 'tmpnam', 'getenv', 'putenv', 'setenv', 'unsetenv', 'tzset', 'random', 'srandom')
+        fn = None
+        for line in txt.splitlines():
+            mo = re.match(r'^([A-Za-z_][A-Za-z0-9_$]*) /\* ', line)
+            if mo:
+                fn = mo.group(1)
+                continue
+            if not fn or fn.startswith('__CPROVER'):
+                continue
+            mo = re.search(r'CALL (?:[^ ]+ := )?([A-Za-z_][A-Za-z0-9_]*)\(', line)
+            if mo and mo.group(1) in NONREENTRANT:
+                found.setdefault((fn, 'libc:' + mo.group(1)), set()).add('call')
+                statics['libc:' + mo.group(1)] = {'const': False, 'type': 'non-reentrant libc function', 'file': ''}
         res = []
         new = []
         for (f, s), kinds in sorted(found.items()):
